@@ -31,6 +31,20 @@ CLAIMED = {
             "and checked against its defining equations; FP_RDC = MONTY only; known finding F16 (fp_exp_slide refuses exponents longer than the "
             "field size).",
             "DESIGN.md §5 C02"),
+    "C03": ("Lean 4 proofs (every multiplication loop = k•P over an abstract commutative group, combined with the recoding theorems) + translator "
+            "(add/dbl formula templates regenerated into Lean on every run and executed by the driver) + correspondence on six curves",
+            "Proved in Lean: the loops mirroring ep_mul_basic / slide / monty / lwnaf / lwreg, ep_mul_fix_basic, ep_mul_sim_trick / inter / joint "
+            "return k•P (resp. k•P + m•Q) for every integer k in any additive commutative group killed by n, using the proved recoding "
+            "theorems of C09. Tie T: the affine / projective / Jacobian add and dbl templates and their public wrappers are translated from "
+            "the C text into Lean on every run; the driver executes the generated definitions on the presented representation and they are "
+            "compared with the implementation and with the affine group law. Tie D: ~2300 lines per run on NIST/BSI/SM2 P-256, secp256k1, "
+            "BN-P256, SM9-P256: every add/dbl/mul/mul_fix/mul_sim variant by name, every scalar class for every variant, normalised / projective "
+            "operands with random z, all alias patterns. The theorems 'generated formula = chord-and-tangent law' are in progress (not yet "
+            "part of the obligations); comb methods and ep_mul_sim_lot are class C.",
+            "Trusted: Lean kernel; translator tools/translate.py (accepted fragment listed there; anything else is a translation failure); "
+            "abstract-group models tied to the C loops by whole-function correspondence; curve parameters read from the running library; known "
+            "findings F22 (identity as fixed base), F24 (sim table containing the identity).",
+            "DESIGN.md §5 C03"),
     "C09": ("Lean 4 proofs (every scalar recoding represents exactly its input with the promised digit set, length and sparsity; fuel "
             "sufficiency) + correspondence of all number-theoretic functions against their mathematical definitions at w=64 and w=8",
             "Proved in Lean for the model: bn_rec_win / slw / naf (any width) / reg / jsf return digit strings whose value is exactly the "
